@@ -357,3 +357,68 @@ func (t *Term) String() string {
 	sb.WriteByte(')')
 	return sb.String()
 }
+
+// LiftUnary applies f to the literal leaves of an ite-tree t (a literal, or
+// ite(c, a, b) with liftable a and b) and rebuilds the tree in the result
+// sort. ok=false if some leaf is not a literal (or the tree is too large).
+func (c *Ctx) LiftUnary(t *Term, f func(lit *Term) *Term) (*Term, bool) {
+	memo := map[int]*Term{}
+	budget := 4096
+	var rec func(x *Term) (*Term, bool)
+	rec = func(x *Term) (*Term, bool) {
+		if r, ok := memo[x.ID]; ok {
+			return r, true
+		}
+		budget--
+		if budget < 0 {
+			return nil, false
+		}
+		var r *Term
+		switch {
+		case x.IsConst():
+			r = f(x)
+		case x.Op == "ite":
+			a, ok := rec(x.Args[1])
+			if !ok {
+				return nil, false
+			}
+			b, ok := rec(x.Args[2])
+			if !ok {
+				return nil, false
+			}
+			r = c.Ite(x.Args[0], a, b)
+		default:
+			return nil, false
+		}
+		memo[x.ID] = r
+		return r, true
+	}
+	return rec(t)
+}
+
+// IsNaN builds fp.isNaN(t) with simplification: conversions from integers
+// are never NaN; literals and ite-trees of literals fold.
+func (c *Ctx) IsNaN(t *Term) *Term {
+	if strings.HasPrefix(t.Op, "(_ to_fp") && len(t.Args) == 1 && t.Args[0].Sort.Width() != 0 && strings.HasSuffix(t.Op, "RNE") {
+		return c.False
+	}
+	if r, ok := c.LiftUnary(t, func(l *Term) *Term {
+		if l.Sort == F32 {
+			f := math.Float32frombits(uint32(l.CBits))
+			return c.BoolLit(f != f)
+		}
+		f := math.Float64frombits(l.CBits)
+		return c.BoolLit(f != f)
+	}); ok {
+		return r
+	}
+	return c.App("fp.isNaN", Bool, t)
+}
+
+// FromIntConv reports whether t is an int->float conversion (possibly under ite over such).
+func (t *Term) FromIntConv() bool {
+	if strings.HasPrefix(t.Op, "(_ to_fp") && len(t.Args) == 1 && t.Args[0].Sort.Width() != 0 && strings.HasSuffix(t.Op, "RNE") {
+		return true
+	}
+	return false
+}
